@@ -31,6 +31,39 @@ def ok (m : Mon σ) (ls : List Label) : Bool := (m.run m.init ls).isSome
 
 end Mon
 
+/-- What a monitor knows about the actor it watches (from the `spawn` line of the trace). -/
+structure MonCtx where
+  cfg : Cfg
+  h0 : Nat
+  k0 : HKind
+  prompt : Bool       -- the schedule only advances time when nothing is runnable
+  deriving Repr, Inhabited
+
+def OpKind.msg? : OpKind → Option Nat
+  | .send m | .trySend m | .call m | .callw m | .tryCall m => some m
+  | _ => none
+
+def OpKind.isCall : OpKind → Bool
+  | .call _ | .callw _ | .tryCall _ => true
+  | _ => false
+
+def OpKind.isSend : OpKind → Bool
+  | .send _ | .trySend _ => true
+  | _ => false
+
+def Res.isErr : Res → Bool
+  | .err _ => true
+  | _ => false
+
+def lookup {α : Type} (k : Nat) : List (Nat × α) → Option α
+  | [] => none
+  | (k', v) :: rest => if k' == k then some v else lookup k rest
+
+/-- Events that mean "the actor's task failed" (as opposed to returning after `stopped`). -/
+def Label.isFailure : Label → Bool
+  | .cbPanic _ | .cancel | .taskPanic | .cbEnd .started false => true
+  | _ => false
+
 /-- The executor-level events after which an actor is "terminated". -/
 def Label.terminates : Label → Bool
   | .taskDone | .taskPanic | .cancel => true
